@@ -392,7 +392,11 @@ func total(c *vm.Ctx, text string, class string) {
 	case refsnbt.Lenient:
 		// constructs a parser may refuse - but this one accepted the text, and every reader that accepts them reads the same value
 		if ref.IfAccepted != nil {
-			if d := refnbt.Equal(got, ref.IfAccepted, refnbt.Opts{EmptyListElemFree: true}); d != "" {
+			d := refnbt.Equal(got, ref.IfAccepted, refnbt.Opts{EmptyListElemFree: true})
+			if d != "" && ref.IfAcceptedAlt != nil && refnbt.Equal(got, ref.IfAcceptedAlt, refnbt.Opts{EmptyListElemFree: true}) == "" {
+				d = ""
+			}
+			if d != "" {
 				c.Violation("total/accepted-with-another-meaning/"+reasonClass(ref.Reason)+"/"+diffClass(d), "the text uses a construct a parser may refuse ("+ref.Reason+"); it was accepted, but not with the value its readers give it: "+d, wit())
 			} else {
 				c.Cover("total.lenient-construct-accepted-with-its-meaning")
@@ -405,6 +409,7 @@ var handTexts = []string{
 	"[[01d],[1f,01f]]", "[01,1b]", "[[01],[1b,01]]",
 	"", " ", "[", "]", "{", "}", "[,]", "[;]", "[,1]", "[1,]", "[1,,2]", "{a:}", "{:1}", "{a}", "{a:1,}", "{,}", "{a:1 b:2}", `["b",{}]`, "{a:1}x", "1 2", "1,2",
 	"[[1],[2]]", "[[],[1]]", "[[I;1],[L;1l]]", "[[1],[a]]", "[1,a]", "[1,2b]", "[{},[]]", "[{},1]", "[[],{}]", "[B;1]", "[I;1b]", "[L;1]", "[I;1I]", "[I;{}]", "[I;[1]]", "[B;1b,]", "[B;,1b]", "[X;1]", "[B", "[B;", "[I;1", "[I;1,",
+	"0100L", "-010l", "+0777L", "09L", "08b", "007", "00", "-00s", "[L;010L,011L]", "{a:0100L,b:[010,011]}", "0x10", "0b1", "0o7", "1_000",
 	".5", ".5d", ".5f", "-.5", "+.5", ".5e1", "5.", "5.f", "1e3f", "2E-2d", "-5e1F", "1.e3f", "[.5,1.5]", "{a:.5}", "[1e3f,2f]", `"a\nb"`, `"\t"`, `{"k\ny":1b}`, `'a\rb'`, `"a\bb\ff"`, `"a\/b"`, `"\u0041"`, `"\x41"`, `"\s"`,
 	"1.5", "-1.5", "1.5f", "1.50", "0.1", "00.1", ".5", "5.", "1e5", "1.5e5", "1E-5f", "+1", "-0", "-0.0", "01", "1b", "128b", "-129b", "255B", "32768s", "2147483648", "9223372036854775808L", "1.0.0", "--1", "1-1", "1+1", "+", "-", ".", "-.", "1f", "1d", "1F", "1D", "1L", "1l", "1I", "1i", "1S", "1s",
 	"true", "false", "True", "\"\"", "''", "\"", "'", "\"a", "'a", `"\"`, `"\\"`, `"\n"`, `"\x"`, `'\''`, `'\"'`, `"\'"`, `"a"b`, `"a""b"`, `a"b"`, "a b", "a\tb", "§", "a§", "\x00", "\xff", "日本", "\"日本\"",
